@@ -55,6 +55,13 @@ package server
 //@ func (*monitor).filter2
 //@ requires m != nil && update != nil
 //@ modifies nothing
+// a row change is reported exactly when its kind is selected, projected on the
+// requested columns plus _uuid
+//@ at call server.filterColumns requires arg1 == cols && ("_uuid" in cols) && (forall c: string :: (c in cols) == (c == "_uuid" || (exists i: int :: 0 <= i && i < len(columns) && columns[i] == c)))
+//@ loop 2 invariant cols != nil && ("_uuid" in cols) && (forall c: string :: (c in cols) == (c == "_uuid" || (exists i: int :: 0 <= i && i <= rangeindex && columns[i] == c)))
+//@ func (*monitor).filter2$1
+//@ requires tu2 != nil
+//@ at update tu2 requires arg0 == uuid && ((ru2.Insert != nil && SelInsert(sel)) || (ru2.Modify != nil && SelModify(sel)) || (ru2.Delete != nil && SelDelete(sel)))
 // the columns are the request's columns whether or not it carries a select; the
 // select is the request's, or reports every kind of change when there is none
 //@ func (*monitor).requested
@@ -63,6 +70,7 @@ package server
 //@ ensures (table in m.request) && m.request[table] != nil ==> result0 == m.request[table].Columns
 //@ ensures !((table in m.request) && m.request[table] != nil) ==> len(result0) == 0
 //@ ensures (table in m.request) && m.request[table] != nil && m.request[table].Select != nil ==> result1 == *m.request[table].Select
+//@ ensures !((table in m.request) && m.request[table] != nil && m.request[table].Select != nil) ==> (SelInsert(result1) && SelModify(result1) && SelDelete(result1) && SelInitial(result1))
 // filterColumns is the exact projection: the result holds the columns of the
 // row that were asked for, with the row's values, and is a new map.
 //@ func filterColumns
